@@ -78,6 +78,10 @@ def make_sim(kind, seed, n=200, dur=8, extra=None, variant=0):
     if kind == 'sis_pools_agegroup':      # mixing pools between age groups
         mps = ss.MixingPools(beta=ss.beta(0.3), contacts=np.array([[1.0, 2.0], [2.0, 1.0]]), src={'a': ss.AgeGroup(0, 30), 'b': ss.AgeGroup(30, None)}, dst={'a': ss.AgeGroup(0, 30), 'b': ss.AgeGroup(30, None)})
         return ss.Sim(diseases=L('diseases', [ss.SIS(beta=0.0, init_prev=0.1)]), networks=L('networks', [mps]), interventions=L('interventions', []), connectors=L('connectors', []), analyzers=L('analyzers', []), **kw)
+    if kind == 'sir_births_people':      # a People object supplied by the user + a module drawing from the process-wide generator (seeded by Sim.init)
+        kw2 = {k: v for k, v in kw.items() if k != 'n_agents'}
+        return ss.Sim(people=ss.People(n), diseases=L('diseases', [ss.SIR(beta=0.1, init_prev=0.1)]), networks=L('networks', [ss.RandomNet(n_contacts=4)]), demographics=[ss.Births(birth_rate=40)],
+                      interventions=L('interventions', []), connectors=L('connectors', []), analyzers=L('analyzers', []), **kw2)
     if kind == 'sir_mf': return ss.Sim(diseases=L('diseases', [ss.SIR(beta={'mf': [0.3, 0.2]}, init_prev=0.1)]), networks=L('networks', [ss.MFNet()]), connectors=L('connectors', []), analyzers=L('analyzers', []), interventions=L('interventions', []), **kw)
     if kind == 'sis_static': return ss.Sim(diseases=L('diseases', [ss.SIS(beta=0.1)]), networks=L('networks', [ss.StaticNet()]), connectors=L('connectors', []), analyzers=L('analyzers', []), interventions=L('interventions', []), **kw)
     if kind == 'sir_er_deaths': return ss.Sim(diseases=L('diseases', [ss.SIR(beta=0.2, p_death=0.2)]), networks=L('networks', [ss.ErdosRenyiNet()]), demographics=[ss.Deaths(death_rate=30)], connectors=L('connectors', []), analyzers=L('analyzers', []), interventions=L('interventions', []), **kw)
